@@ -910,6 +910,12 @@ VmTrap vm_core_execute(VmState *vm) {
              * after the CALL in the caller) before we pop the frame */
             uint32_t ret_ip = frame->return_ip;
 
+            /* CALL_INDIRECT / CLOSURE_CALL moved the popped closure into the frame: the frame owns that reference */
+            if (frame->closure) {
+                vm_release(&vm->heap, val_closure(frame->closure));
+                frame->closure = NULL;
+            }
+
             vm->frame_count--;
 
             if (vm->frame_count == 0) {
@@ -1741,6 +1747,10 @@ VmTrap vm_core_execute(VmState *vm) {
         while (vm->stack_size > frame->stack_base) {
             NanoValue v = stack_pop(vm);
             vm_release(&vm->heap, v);
+        }
+        if (frame->closure) {
+            vm_release(&vm->heap, val_closure(frame->closure));
+            frame->closure = NULL;
         }
         vm->frame_count--;
         if (vm->frame_count == 0) {
